@@ -12,7 +12,9 @@ use pushr::push::parser::PushParser;
 use pushr::push::random::CodeGenerator;
 use pushr::push::state::PushState;
 
-const NAMES: [&str; 18] = ["a", "foo", "x1", "Bar-2", "a.b", "secretive-turn", "CODE.", "integer.+", "(x", "x)", "f(x)", "()", "a,b", "[1,2]", "INT", "TRUE1", "1a", "é"];
+// includes names that start or end with characters text tools like to strip (byte order mark, zero width
+// space / joiner, soft hyphen, word joiner): none of them is whitespace, all are ordinary name characters
+const NAMES: [&str; 24] = ["a", "foo", "x1", "Bar-2", "a.b", "secretive-turn", "CODE.", "integer.+", "(x", "x)", "f(x)", "()", "a,b", "[1,2]", "INT", "TRUE1", "1a", "é", "\u{feff}x", "\u{feff}", "\u{200b}y", "z\u{200d}", "\u{ad}q", "\u{2060}w"];
 
 fn tree(r: &mut Rng, depth: usize, floats: bool, instr: &[String]) -> SItem {
     if depth == 0 || r.chance(2, 5) {
@@ -87,6 +89,10 @@ pub fn run(ctx: &mut Ctx) {
         let floats = k % 3 == 0;
         let nitems = 1 + r.below(4);
         let mut items: Vec<SItem> = (0..nitems).map(|_| { let d = r.below(5); tree(&mut r, d, floats, &names) }).collect();
+        // one case in 16: the FIRST printed token is a bare name (start-of-text handling)
+        if k % 16 == 3 {
+            items.insert(0, SItem::Name(r.pick(&NAMES).to_string()));
+        }
         // one case in 24: very deep nesting (depths around powers of two and around every limit
         // written as a literal in pushr's source), with siblings left behind on the way out
         if k % 24 == 7 {
